@@ -1,0 +1,26 @@
+//go:build verif
+
+package common
+
+// VerifOrderHook is installed by the verification harness (build tag "verif")
+// to observe, and to impose an order on, every slice that the library builds
+// from a Go map. It receives the length of the slice and returns a permutation
+// of 0..n-1 (or nil to keep the order). It may also block, which the harness
+// uses as a scheduling gate when it replays interleavings of concurrent calls.
+var VerifOrderHook func(n int) []int
+
+// VerifReorder applies VerifOrderHook to a map-built slice, in place.
+func VerifReorder[T any](r []T) {
+	hook := VerifOrderHook
+	if hook == nil {
+		return
+	}
+	p := hook(len(r))
+	if len(p) != len(r) {
+		return
+	}
+	tmp := append([]T(nil), r...)
+	for i, j := range p {
+		r[i] = tmp[j]
+	}
+}
